@@ -162,6 +162,19 @@ Definition fixed_width (ty : Z) (tlen : nat) : nat :=
   if (ty =? 1)%Z then 4 else if (ty =? 2)%Z then 8 else if (ty =? 3)%Z then 12
   else if (ty =? 4)%Z then 4 else if (ty =? 5)%Z then 8 else if (ty =? 7)%Z then tlen else 0.
 
+(* Dictionary lookup.  [nth_error dict (N.to_nat i)] costs a walk of [i] cells for every index: quadratic on
+   dictionaries of 2^16 and more values.  The dictionary is cut once per page into blocks of 256 values and an
+   index is looked up as (block i/256, position i mod 256): [dict_lookup (dict_blocks dict) i = nth_error dict
+   (N.to_nat i)] for every [dict] and [i] (SpecDecoderProofs.v dict_lookup_eq; C02_dictionary_lookup). *)
+Definition dict_block : nat := 256.
+Definition dict_blocks {A} (dict : list A) : list (list A) :=
+  Plain.split_every (S (length dict / dict_block)) dict_block dict.
+Definition dict_lookup {A} (blocks : list (list A)) (i : N) : option A :=
+  match nth_error blocks (N.to_nat (i / 256)) with
+  | Some b => nth_error b (N.to_nat (i mod 256))
+  | None => None
+  end.
+
 (* decode [n] non-null values *)
 Definition decode_values (ty : Z) (tlen : nat) (enc : Z) (dict : list bytes) (n : nat) (data : bytes)
   : option (list bytes) :=
@@ -179,7 +192,8 @@ Definition decode_values (ty : Z) (tlen : nat) (enc : Z) (dict : list bytes) (n 
     match dec_dict_indexes data with
     | Some idx =>
         if (n <=? length idx)%nat then
-          let look := map (fun i => nth_error dict (N.to_nat i)) (firstn n idx) in
+          let blocks := dict_blocks dict in
+          let look := map (fun i => dict_lookup blocks i) (firstn n idx) in
           if forallb (fun o => match o with Some _ => true | None => false end) look
           then Some (map (fun o => match o with Some v => v | None => [] end) look)
           else None
